@@ -109,6 +109,13 @@ def load_seq(b):
             for s in sites:
                 if s["src_local"] == t["dest"]["l"]:
                     payload = s["payload_local"]
+        if payload is None and not t["dest"]["p"]:
+            # no `?` on this load: the Ok payload taken by a match on the result (`V::load(reader).map(..)` written out)
+            outs = [st["lhs"]["l"] for _, _, st in b.stmts() if st["s"] == "assign" and not st["lhs"]["p"] and st["rv"]["r"] == "use" and
+                    (operand_place(st["rv"]["o"]) or {}).get("l") == t["dest"]["l"] and
+                    [e.get("name") for e in (operand_place(st["rv"]["o"]) or {}).get("p", []) if isinstance(e, dict) and "down" in e] == ["Ok"]]
+            if len(outs) == 1:
+                payload = outs[0]
         items.append({"ty": t["callee"].get("self_ty", {}).get("s", "?"), "mod": modifier(b, bi, av), "block": bi, "sp": t["sp"],
                       "payload": payload, "dest": t["dest"]["l"] if not t["dest"]["p"] else None})
     items.sort(key=lambda x: order.get(x["block"], 1 << 30))
